@@ -63,7 +63,9 @@ checks = (a.checks or a.prop).split(",")
 rc, out = sh("git status --porcelain -- src", cwd="/repo")
 assert out.strip() == "", "/repo has uncommitted changes: " + out
 rc, out = sh(f"git apply {dst}/patch.diff", cwd="/repo")
-assert rc == 0, "patch does not apply to /repo: " + out
+if rc != 0:
+    print(f"PATCH-DOES-NOT-APPLY {sid}: {out.strip().splitlines()[0] if out.strip() else ''}")
+    sys.exit(3)
 res = meta.setdefault("checks_run", {})
 saved = {}
 for c in checks:                      # evidence files describe the unchanged tree: keep them
